@@ -205,7 +205,12 @@ fn missing_marker(p: &Program, rep: &mut Report) {
                     a
                 }
             };
-            let chosen: Vec<String> = p.names.clone();
+            // the chosen subset rotates with the cut: all names, none, the first one only
+            let chosen: Vec<String> = match n % 3 {
+                0 => p.names.clone(),
+                1 => Vec::new(),
+                _ => p.names.iter().take(1).cloned().collect(),
+            };
             rep.evaluations += 1;
             rep.transitions += 2;
             let h = fnv(format!("mm{:?}{:?}{}", p, layers, n).as_bytes());
@@ -275,6 +280,36 @@ fn cli_linear(rep: &mut Report) {
             let mut der = vec![0x30u8, 0x2e, 0x02, 0x01, 0x00, 0x30, 0x05, 0x06, 0x03, 0x2b, 0x65, 0x6e, 0x04, 0x22, 0x04, 0x20];
             der.extend_from_slice(&crate::keys::secret(0).to_bytes());
             let _ = std::fs::write(&keyfile, &der);
+            // the same archive without its end-of-data marker (block stream cut before it, original index kept):
+            // whole-archive extraction through the tool must not report success
+            if layers == L4::None && nfiles <= 40 {
+                let lay = crate::refstream::layout(&p);
+                let hl = 9;
+                let inner = &archive[hl..];
+                for cut in [lay.end_marker, lay.end_marker.saturating_sub(1), lay.end_marker / 2] {
+                    let mut crafted = archive[..hl].to_vec();
+                    crafted.extend_from_slice(&inner[..cut.min(inner.len())]);
+                    crafted.extend_from_slice(&inner[(lay.end_marker + 1).min(inner.len())..]);
+                    let _ = std::fs::write(dir.join("cut.mla"), &crafted);
+                    rep.evaluations += 1;
+                    rep.transitions += 1;
+                    let h = fnv(format!("clicut{nfiles}{cut}").as_bytes());
+                    rep.state(h);
+                    rep.nontrivial(h);
+                    let args: Vec<String> = vec!["extract".into(), "-i".into(), "cut.mla".into(), "-o".into(), "out-cut".into()];
+                    let o = cli::run(&exe, dir, &args, None);
+                    rep.class(&format!("cli/missing-marker/exit-ok={}", o.status.success()));
+                    if o.status.success() {
+                        rep.violate(Violation {
+                            sig: json!({"kind": "cli_success_without_end_marker"}),
+                            detail: format!("mlar {args:?} exits 0 on an archive of {nfiles} files whose block stream stops at byte {cut} (end-of-data marker at {}) before the index", lay.end_marker),
+                            replay: json!({"cli_missing_marker": {"files": nfiles, "cut": cut}}),
+                            weight: cut as u64,
+                        });
+                    }
+                    let _ = std::fs::remove_dir_all(dir.join("out-cut"));
+                }
+            }
             for form in ["linear", "glob"] {
                 rep.evaluations += 1;
                 rep.transitions += 1;
